@@ -146,7 +146,7 @@ def run_pool_check(ctx, pid, n_quick, n_thorough, props, theorem_of_key):
         cases.append(coq_case(with_conn, mif, thr, hist, h.items))
         meta.append((with_conn, mif, thr, hist, h.items))
 
-    for c in corpus_cases('C12') + (corpus_cases(pid) if pid != 'C12' else []):
+    for c in [x for x in corpus_cases('C12') if not x.get('legacy')] + (corpus_cases(pid) if pid != 'C12' else []):
         h = H.run_replay(c['history'], c.get('with_conn', True), c.get('max_in_flight', 4), c.get('threshold', 2))
         if h is not None:
             record(h, c.get('with_conn', True), c.get('max_in_flight', 4), c.get('threshold', 2), 'corpus')
@@ -175,7 +175,98 @@ def run_pool_check(ctx, pid, n_quick, n_thorough, props, theorem_of_key):
     ctx.extra['disagreeing_histories'] = len(bad)
 
 
+LEGACY_CONFIGS = [(1, 3, 3, 2, 1), (1, 2, 2, 1, 1), (2, 3, 3, 2, 1), (0, 2, 3, 2, 0)]    # core, max conns, max_in_flight, max_reqs, min_reqs
+
+
+def legacy_audit(repo):
+    """HostConnectionPool._maybe_trash_connection: taking the connection out of _connections and recording it in _trash must be
+    one `with self._lock` block"""
+    import ast
+    try:
+        tree = ast.parse(open(os.path.join(repo, 'cassandra/pool.py')).read())
+    except (OSError, SyntaxError) as e:
+        return ['cannot read source: %s' % e]
+    for c in tree.body:
+        if isinstance(c, ast.ClassDef) and c.name == 'HostConnectionPool':
+            for m in c.body:
+                if isinstance(m, ast.FunctionDef) and m.name == '_maybe_trash_connection':
+                    withs = [w for w in ast.walk(m) if isinstance(w, ast.With) and any(ast.unparse(i.context_expr) == 'self._lock' for i in w.items)]
+                    for w in withs:
+                        src = ast.unparse(w)
+                        if 'self._connections = ' in src and 'self._trash.add(' in src:
+                            return []
+                    return ['HostConnectionPool._maybe_trash_connection: `self._connections = ...` and `self._trash.add(...)` are not in the same `with self._lock` block']
+    return ['HostConnectionPool._maybe_trash_connection not found']
+
+
+def run_legacy(ctx, n_quick, n_thorough):
+    """HostConnectionPool (protocol v1/v2) against Model/PoolV2.v"""
+    from vf import pool_harness2 as L
+    probs = legacy_audit(core.REPO)
+    ctx.extra['legacy_lock_audit'] = probs or 'ok'
+    if probs:
+        ctx.proof_broken.append(('atomicity-audit', '; '.join(probs)))
+    cases, meta = [], []
+
+    def record(h, cfg, source):
+        hist = h.history
+        ctx.case(['legacy', list(cfg), hist], nontrivial=len(h.conns) > cfg[0],
+                 sample={'pool': 'HostConnectionPool', 'config(core,max,max_in_flight,max_reqs,min_reqs)': list(cfg), 'history': hist, 'connections_opened': len(h.conns)})
+        ctx.count('legacy_connections_opened', len(h.conns))
+        for m, ints in hist:
+            ctx.count('legacy_op', m[0])
+        found = [(k, 'connection %d opened by the pool is still open after shutdown and quiescence%s' % (cid, ('; ' + h.notes[0]) if h.notes else ''),
+                  'C12v2_closes_everything') for k, cid in h.leaks()] + list(h.problems)
+        if getattr(h, 'crash', None):
+            found.append(('HostConnectionPool.exception', 'the pool raised %s' % h.crash, 'harness'))
+        for key, what, thm in found:
+            small = L.shrink(hist, key, cfg, budget=120) if source != 'corpus' else hist
+            ctx.violation(key, what + ' (history: %s)' % json.dumps(small), case={'legacy': True, 'config': list(cfg), 'history': small},
+                          expected='property holds', actual=what, theorem=thm, kind='history')
+        cases.append('tr_eqb (%s) %s' % (L.coq_trace(cfg, hist), H.trace_coq(h.items)))
+        meta.append((cfg, hist, h.items))
+
+    for c in corpus_cases('C12'):
+        if c.get('legacy'):
+            h = L.run_replay(c['history'], tuple(c['config']))
+            if h is not None:
+                record(h, tuple(c['config']), 'corpus')
+    n = n_quick if ctx.tier == 'quick' else n_thorough
+    for i in range(n):
+        cfg = LEGACY_CONFIGS[i % len(LEGACY_CONFIGS)]
+        h = L.gen_history(ctx.rng, ctx.rng.randint(3, 16), cfg, p_int=0.3)
+        record(h, cfg, 'generated')
+    try:
+        bad = ctx.coq_filter(['Pool', 'PoolV2'], '(fun b : bool => b)', cases, shard=40)
+    except RuntimeError as e:
+        ctx.proof_broken.append(('correspondence:PoolV2', str(e)[-600:]))
+        bad = []
+    for i in bad[:5]:
+        cfg, hist, items = meta[i]
+        ctx.disagreement('model-vs-impl.HostConnectionPool', 'Model/PoolV2.v and the real HostConnectionPool differ on config %s history %s'
+                         % (list(cfg), json.dumps(hist)), case={'legacy': True, 'config': list(cfg), 'history': hist}, actual=items[:60])
+    ctx.extra['legacy_disagreeing_histories'] = len(bad)
+
+
+def replay_legacy(ctx, rp):
+    from vf.impl import import_cluster
+    import_cluster()
+    from vf import pool_harness2 as L
+    case = rp['case']
+    h = L.run_replay(case['history'], tuple(case['config']))
+    if h is None:
+        print('history not executable on this tree')
+        return 0
+    found = [(k, 'connection %d still open' % cid) for k, cid in h.leaks()] + [(k, w) for k, w, _ in h.problems]
+    for f in found:
+        print('  %s: %s' % f)
+    print(('VIOLATION property=%s replay=%s' % (ctx.pid, ctx.replay_path)) if found else 'not reproduced')
+    return 1 if found else 0
+
+
 def replay_pool(ctx, rp, theorem_of_key):
+    if (rp.get('case') or {}).get('legacy'):
+        return replay_legacy(ctx, rp)
     from vf.impl import import_cluster
     import_cluster()
     case = rp.get('case') or {}
